@@ -2,6 +2,11 @@
 
 package client
 
+import (
+	"fmt"
+	"net"
+)
+
 // VerifC20SsvToJson exposes the option-string front end (C20).
 func VerifC20SsvToJson(ssv string) []byte { return ssvToJson(ssv) }
 
@@ -18,4 +23,45 @@ func VerifC20Transport(t TransportConfig) (mode, wsUrl, browserName string) {
 		browserName = "?"
 	}
 	return t.mode, t.wsUrl, browserName
+}
+
+// VerifC20FirstPayload runs what every transport runs first when a connection is made with the processed
+// configuration (makeAuthenticationPayload) and reports a panic instead of dying.
+func VerifC20FirstPayload(ai AuthInfo) (panicked string) {
+	defer func() {
+		if r := recover(); r != nil {
+			panicked = fmt.Sprint(r)
+		}
+	}()
+	_, _ = makeAuthenticationPayload(ai)
+	return ""
+}
+
+// VerifC20ClientHello runs the real Handshake of the transport the processed configuration selects against a pipe
+// and returns the first TLS record the client sends (the ClientHello); the peer then hangs up.
+func VerifC20ClientHello(t TransportConfig, ai AuthInfo) []byte {
+	tr := t.CreateTransport()
+	if tr == nil {
+		return nil
+	}
+	cli, srv := net.Pipe()
+	done := make(chan struct{})
+	go func() {
+		defer close(done)
+		defer cli.Close()
+		defer func() { _ = recover() }()
+		_, _ = tr.Handshake(cli, ai)
+	}()
+	var rec []byte
+	buf := make([]byte, 4096)
+	for {
+		n, err := srv.Read(buf)
+		rec = append(rec, buf[:n]...)
+		if err != nil || (len(rec) >= 5 && len(rec) >= 5+int(rec[3])<<8+int(rec[4])) {
+			break
+		}
+	}
+	srv.Close()
+	<-done
+	return rec
 }
